@@ -377,9 +377,23 @@ def eval_next(E, args, node):
             finally:
                 E.st.env = old_env
                 E.spec_mode -= 1
+        # an explicit witness from the sidecar contract (keyed by the line-order ordinal of this next() call) turns
+        # "some element satisfies the predicate" into a ground obligation; StopIteration is then unreachable
+        nexts = sorted([n_ for n_ in ast.walk(E.fdef) if isinstance(n_, ast.Call) and isinstance(n_.func, ast.Name)
+                        and n_.func.id == 'next'], key=lambda n_: (n_.lineno, n_.col_offset))
+        ordinal = 1 + [id(n_) for n_ in nexts].index(id(node)) if id(node) in [id(n_) for n_ in nexts] else None
+        wit = ((E.case.get('witness') or {}).get(ordinal) or (E.contract.get('witness') or {}).get(ordinal)) if ordinal else None
+        have_witness = False
+        if wit is not None and not E.spec_mode:
+            env_w = dict(saved)
+            w = E.spec_eval(wit, env_w)
+            wt = term_int(w)
+            E.oblige('proof', z3.And(wt >= 0, wt < N, pred(wt)), node,
+                     name='%s/next#%d-witness' % (E.fn_short, ordinal))
+            have_witness = True
         j = z3.Int(fresh_name('j'))
         exists = z3.Exists([j], z3.And(j >= 0, j < N, pred(j)))
-        c = E.choose(2, 'next')
+        c = 0 if have_witness else E.choose(2, 'next')
         if c == 1:
             jj = z3.Int(fresh_name('j'))
             E.assumptions_quant(z3.ForAll([jj], z3.Implies(z3.And(jj >= 0, jj < N), z3.Not(pred(jj)))))
